@@ -11,6 +11,7 @@ import * as V from './mockvue.mjs'
 
 const cps = (s) => Array.from(s).map((c) => c.codePointAt(0))
 const S = (s) => ({ t: 'str', cp: cps(s) })
+const STALE = Object.freeze({ __opq: '$stale-value-of-a-later-evaluation' })
 
 function makeWorld(spec) {
   const events = []
@@ -300,7 +301,9 @@ function makeWorld(spec) {
         })
         break
       case 'fn': {
-        const f = function (...args) { log({ ev: 'call', id: name }); return mk(e.rv) }
+        // repeated-evaluation contexts set $iter.v = 1 while a *later* evaluation of the same site runs: what a call
+        // returns then must never show up in the vnode of the first evaluation
+        const f = function (...args) { log({ ev: 'call', id: name }); return sandbox.$iter.v ? STALE : mk(e.rv) }
         f.__fn = name
         sandbox[name] = f
         break
@@ -323,6 +326,7 @@ function makeWorld(spec) {
       default: throw new Error('env kind ' + e.k)
     }
   }
+  sandbox.$iter = { v: 0 }
   sandbox.$v = (id) => mk(spec.vals[id])
   sandbox.$dc = vue.defineComponent
   sandbox.$mark = (id) => log({ ev: 'mark', id })
